@@ -1,4 +1,5 @@
 pub mod bq;
+pub mod total;
 pub mod utf8;
 pub mod meta;
 pub mod ser;
@@ -13,6 +14,7 @@ pub mod xmltok;
 pub fn dispatch(engine: &str, fields: &[&str]) -> String {
     match engine {
         "bq" => bq::run(fields),
+        "total" => total::run(fields),
         "utf8" => utf8::run(fields),
         "meta" => meta::run(fields),
         "ser" => ser::run(fields),
